@@ -120,6 +120,8 @@ func (e *Engine) LoadContracts(specsDir string) {
 	e.contracts.LoadRepoContracts(e.repo, "Havoc")
 	e.contracts.LoadSpecsDir(specsDir)
 	loadStable(filepath.Join(specsDir, "stable.txt"))
+	loadSyncMaps(filepath.Join(specsDir, "syncmaps.txt"))
+	e.resolveStableGlobals()
 	// assume-pure lists (*.pure) and heap-neutral effects (*.effect)
 	ms, _ := filepath.Glob(filepath.Join(specsDir, "*.pure"))
 	ms2, _ := filepath.Glob(filepath.Join(specsDir, "*.effect"))
@@ -147,6 +149,28 @@ func (e *Engine) LoadContracts(specsDir string) {
 	}
 }
 
+var pendingStableGlobals []string
+
+// resolveStableGlobals: "global <pkg>.<Var>" lines declare every leaf of that
+// package-level variable stable (set once at initialisation).
+func (e *Engine) resolveStableGlobals() {
+	for _, g := range pendingStableGlobals {
+		i := strings.LastIndex(g, ".")
+		if i < 0 {
+			continue
+		}
+		p := e.typesPkg(g[:i])
+		if p == nil {
+			continue
+		}
+		o := p.Scope().Lookup(g[i+1:])
+		if o == nil {
+			continue
+		}
+		stableDecl[typeKey(o.Type())] = append(stableDecl[typeKey(o.Type())], "*")
+	}
+}
+
 func loadStable(path string) {
 	b, err := os.ReadFile(path)
 	if err != nil {
@@ -162,6 +186,10 @@ func loadStable(path string) {
 			p := f[1]
 			if p == "." {
 				p = ""
+			}
+			if f[0] == "global" {
+				pendingStableGlobals = append(pendingStableGlobals, f[1])
+				continue
 			}
 			stableDecl[f[0]] = append(stableDecl[f[0]], p)
 		}
@@ -465,9 +493,9 @@ func (e *Engine) Generate(fname string, sweep bool) (*FuncResult, error) {
 	g := &gen{eng: e, fn: fn, fname: shortFunc(fname), con: e.contracts.byKey[fname], sweep: sweep,
 		vals: map[ssa.Value]*Val{}, incoming: map[*ssa.BasicBlock][]*edge{}, done: map[*ssa.BasicBlock]bool{},
 		loops: map[*ssa.BasicBlock]*loopInfo{}, rpoIdx: map[*ssa.BasicBlock]int{}, names: map[string]int{}, notes: map[string]bool{},
-		params: map[string]*Val{}, varAt: map[string]ssa.Value{}, cutPhi: map[*ssa.Phi]*Val{}, closures: map[int]*closureInfo{},
+		params: map[string]*Val{}, varAt: map[string]ssa.Value{}, varAtBlock: map[*ssa.BasicBlock]map[string]ssa.Value{}, lastCall: map[string]*Val{}, lastCallBlock: map[*ssa.BasicBlock]map[string]*Val{}, cutPhi: map[*ssa.Phi]*Val{}, closures: map[int]*closureInfo{},
 		tupleAddrs: map[ssa.Value]map[int]*AddrInfo{}, deferArgs: map[*ssa.Defer][]*Val{}, rangeOver: map[*ssa.Range]*Val{},
-		str2bytes: map[int]*Term{}, lockKeys: map[LeafKey][]lockUse{}, obligedAt: map[int][]*ssa.BasicBlock{}, localRefs: map[int]bool{}, globalsSeen: map[int]bool{}}
+		str2bytes: map[int]*Term{}, lockKeys: map[LeafKey][]lockUse{}, obligedAt: map[int][]*ssa.BasicBlock{}, localRefs: map[int]bool{}, globalsSeen: map[int]bool{}, boxed: map[int]*Val{}}
 	if g.con != nil && g.con.Trusted {
 		return &FuncResult{Name: fname, Contract: g.con}, nil
 	}
